@@ -16,7 +16,8 @@ CONSTANTS MaxDepth,     \* number of operations applied after the data are chose
           ExtraNew,     \* grids for a new axis besides those of populations 1 and P
           PropSet,      \* admixture proportions
           UnitLimit,    \* every unit vector is used for arrays up to this size
-          ActLimit      \* operations are applied to densities up to this size
+          ActLimit,     \* operations are applied to densities up to this size
+          GrowLimit     \* ... and a population is added to densities up to this size
 
 G2 == <<"0", "1">>
 U3 == <<"0", "1/2", "1">>
@@ -30,7 +31,7 @@ AllGrids == {G2, U3, N3, U4, N4, U5, N5}
 ConfigsQuick ==
     {<<g>> : g \in AllGrids}
     \cup {<<g, h>> : g, h \in {G2, U3, N3, N4}}
-    \cup {<<U3, N3, G2>>, <<N3, U3, U3>>}
+    \cup {<<U3, N3, G2>>, <<N3, U3, U3>>, <<U3, U3, U3>>}
 ConfigsThorough ==
     {<<g>> : g \in AllGrids}
     \cup {<<g, h>> : g, h \in {G2, U3, N3, U4, N4, N5}} \cup {<<U5, U5>>}
@@ -81,8 +82,8 @@ Choose == /\ depth = -1 /\ depth' = 0
 
 Put(phi, gs) == s' = [sh |-> phi.sh, d |-> phi.d, gs |-> gs, gen |-> TRUE]
 DoSplit1D  == NP = 1 /\ Put(PhiSplit1D(Phi, s.gs[1]), <<s.gs[1], s.gs[1]>>)
-DoSplit    == NP = 2 /\ \E k \in 1..NP : Put(PhiSplit(Phi, s.gs, k, s.gs[k]), Append(s.gs, s.gs[k]))
-DoAdmixNew == NP <= 2 /\ \E props \in AdmixProps(NP) : \E gn \in {s.gs[1], N3} :
+DoSplit    == NP = 2 /\ Size(s.sh) <= GrowLimit /\ \E k \in 1..NP : Put(PhiSplit(Phi, s.gs, k, s.gs[k]), Append(s.gs, s.gs[k]))
+DoAdmixNew == NP <= 2 /\ Size(s.sh) <= GrowLimit /\ \E props \in AdmixProps(NP) : \E gn \in {s.gs[1], N3} :
                  Put(PhiAdmixNew(Phi, s.gs, props, gn), Append(s.gs, gn))
 DoPulse    == NP >= 2 /\ \E dest \in 1..NP : \E props \in PulseProps(NP, dest) : Put(PhiPulse(Phi, s.gs, dest, props), s.gs)
 DoRemove   == NP >= 2 /\ \E a \in 1..NP : Put(PhiRemove(Phi, s.gs[a], a), RemoveAt(s.gs, a))
